@@ -33,6 +33,9 @@ func Base() string { return Module + Infix }
 type File struct {
 	Name string
 	Src  string
+	// RawTail is appended to Src after formatting: declarations that gofmt would lay out
+	// differently (several declarations on one line).
+	RawTail string
 }
 
 type Pkg struct {
@@ -71,6 +74,9 @@ func (p *Program) FilesMap() map[string]string {
 	for _, pk := range p.Pkgs {
 		for _, f := range pk.Files {
 			out[p.AbsFile(pk, f.Name)] = f.Src
+			if f.RawTail != "" {
+				out[p.AbsFile(pk, f.Name)] += "\n" + f.RawTail
+			}
 		}
 	}
 	return out
@@ -110,6 +116,13 @@ func (p *Program) Gofmt() error {
 				return fmt.Errorf("synthesised file %s/%s does not parse: %v\n%s", pk.Path, f.Name, err, f.Src)
 			}
 			pk.Files[i].Src = string(b)
+			if f.RawTail != "" {
+				pk.Files[i].Src += "\n" + f.RawTail
+				pk.Files[i].RawTail = ""
+				if _, err := format.Source([]byte(pk.Files[i].Src)); err != nil {
+					return fmt.Errorf("synthesised file %s/%s does not parse: %v\n%s", pk.Path, f.Name, err, pk.Files[i].Src)
+				}
+			}
 		}
 	}
 	return nil
